@@ -853,13 +853,13 @@ func (g *gen) c04Case(p *plan, kind, reqCT string, accept, acceptEnc []string) (
 		Reply: wireR, ReplyJSON: jsonOf(reply)}, nil
 }
 
-const ruleC04 = "unary rules returning vf.Req, larking.testpb.ComplexRequest (maps, Struct, Any, every scalar), vf.Rsp, google.api.HttpBody and real larking.testpb methods (GetShelf, GetBook, UpdateBook, GetMessageOne, Files.UploadDownload, WellKnown.Check); with and without response_body (top-level message fields incl. an HttpBody field; body '', '*' and <field>). The recording handler returns a planted reply (generator of C03: boundary / random values, empty, ~160 KiB, HttpBody with content types incl. parameters and arbitrary bytes up to 64 KiB). Requests: Content-Type absent / application/json / application/protobuf / application/octet-stream (optionally gzip bodies), Accept headers = a fixed table (single types, wildcards, q=0 exclusions, all-excluded, junk tokens, google.api.HttpBody, duplicated headers) x all request types, plus random headers (1-4 ranges, exact / type/* / */*, q in {absent,0,0.000,0.001,0.1,0.5,0.9,1,1.000}, OWS variants, junk elements, split over two header lines), Accept-Encoding values. Two further dimensions: (1) the handler touches the response metadata before returning (every 2nd case: grpc.SetHeader, grpc.SendHeader = headers sent early, SendHeader(nil), SetHeader+SendHeader, SetTrailer) - a failure that disappears with a plain handler is keyed handler=<mode>; (2) every rule also lives on a mux with two extra media types registered through larking.CodecOption (application/x-vf-json, application/x-vf-proto; magic-prefixed so the decoder can tell the named codec produced the body): there the registered universe has five types, request bodies / Content-Types and Accept headers name the extra types (fixed table of 10 headers x all six request types, the general fixed table with rotating request types, a third of the random headers). (3) a third mux REPLACES application/json and application/protobuf by the marked codecs, and a second plain mux is built after the option muxes: the plain muxes (built before and after) must answer in the built-in codecs, never carry a mark, and fall back for headers naming the extra types; (3b) the same tables on a mux with StatsOption + pass-through interceptors and on a mux whose FilesOption registry is a re-ordered second build of the descriptors while the handlers build replies on the first; (3f) request histories: on a mux with unary-only CodecOption codecs (one media type sorting before the built-in ones) the Accept-table cases are served, then server-streaming and bidi HTTP requests with various Accept headers are served by the SAME mux, then the same cases again - negotiation must be a function of the request, not of earlier requests; (3e) a concurrent lane: 8 goroutines send GETs over real loopback connections for self-describing replies of ~768 KiB, Accept alternating json / protobuf, and each must decode its own reply; (3g) a POPULATION of muxes in one process: one mux per small set of options that extend the default tables (every single extra CodecOption media type of a pool of nine sorting before / between / after the built-in types, pairs over all position pairs, triples, with none / one / two extra CompressorOption codings); each new mux is served a table built from its own registered universe (each registered type alone, preferred, and as the only type not excluded; types registered on other muxes only, alone and in front of a built-in type; Accept-Encoding naming own and foreign codings), then the tables of muxes created earlier are served again (the first default mux, the previous mux, a PRNG-chosen older one), a fresh default mux is created and served, and at the end every mux of the population is served once more; first round in canonical order, further rounds in PRNG order; a case that was answered correctly before the latest mux was created and is not afterwards is keyed mux-population:subject=<default-options|extended-options>,<created-before|created-after>-another-mux-with-extended-options (the option classes of both are in the text and in counters; a case already failing before the latest creation is counted, not reported again); at the very end the foreign-mux lane (see C03) re-serves a set of cases after an unrelated mux was created with options for the built-in keys; (3d) a quarter of the requests carry a Twirp-Version header (a failure that disappears without it is keyed twirp-version-header), on annotated and implicit routes; (3c) replies that ARE well-known types with a JSON form of their own (Timestamp, Duration, FieldMask, the nine wrappers, Struct, Value, ListValue, Empty), default-valued and not, as the method's reply and as the response_body-selected field of vf.Req / ComplexRequest; (4a) rules with additional_bindings whose bindings differ from the primary rule in response_body and body (both the additional binding and the primary are exercised); (4) rules delivered through ServiceConfigOption (selector = method): on routes of their own and re-declaring the annotated route of the method with another body / response_body (the service configuration wins). Oracles: independent decode by the response Content-Type (protojson / proto.Unmarshal / the harness decoders of the extra codecs) and proto.Equal with the reply or its response_body field; HttpBody: body == data and Content-Type == content_type; Content-Encoding gzip must gunzip to the payload, absent / identity means the body is the payload; RFC 7231 5.3.2 evaluator (most specific range wins, q=0 excludes), applied only when the header parses under the evaluated grammar: if a registered type is admitted the response type must be admitted, if none is the response type must be the request's own (JSON when absent). distinct = (rule, response codec, request type, Accept class, admission verdict, response Content-Encoding). Stateful part: sequences of 16-40 requests on one mux against an asset-server handler that owns long-lived buffers (1 B - 40 KB) and long-lived reply messages and serves them repeatedly without copying (fresh HttpBody / vf.Rsp per call whose data / bytes field aliases the buffer; the same long-lived vf.Rsp whose response_body-selected HttpBody or vf.Req sub-message holds it), interleaved with other transcoded requests with request bodies and replies of 0 B - 60 KB in all codecs; every reply is checked against an expectation built from an independent pristine copy, after every step every handler-owned buffer must still equal its pristine copy (canary) and at the end every long-lived reply message must equal a freshly built one; distinct there = (asset shape, codec) of assets served again intact after other traffic"
+const ruleC04 = "unary rules returning vf.Req, larking.testpb.ComplexRequest (maps, Struct, Any, every scalar), vf.Rsp, google.api.HttpBody and real larking.testpb methods (GetShelf, GetBook, UpdateBook, GetMessageOne, Files.UploadDownload, WellKnown.Check); with and without response_body (top-level message fields incl. an HttpBody field; body '', '*' and <field>). The recording handler returns a planted reply (generator of C03: boundary / random values, empty, ~160 KiB, HttpBody with content types incl. parameters and arbitrary bytes up to 64 KiB). Requests: Content-Type absent / application/json / application/protobuf / application/octet-stream (optionally gzip bodies), Accept headers = a fixed table (single types, wildcards, q=0 exclusions, all-excluded, junk tokens, google.api.HttpBody, duplicated headers) x all request types, plus random headers (1-4 ranges, exact / type/* / */*, q in {absent,0,0.000,0.001,0.1,0.5,0.9,1,1.000}, OWS variants, junk elements, split over two header lines), Accept-Encoding values. Two further dimensions: (1) the handler touches the response metadata before returning (every 2nd case: grpc.SetHeader, grpc.SendHeader = headers sent early, SendHeader(nil), SetHeader+SendHeader, SetTrailer) - a failure that disappears with a plain handler is keyed handler=<mode>; (2) every rule also lives on a mux with two extra media types registered through larking.CodecOption (application/x-vf-json, application/x-vf-proto; magic-prefixed so the decoder can tell the named codec produced the body): there the registered universe has five types, request bodies / Content-Types and Accept headers name the extra types (fixed table of 10 headers x all six request types, the general fixed table with rotating request types, a third of the random headers). (3) a third mux REPLACES application/json and application/protobuf by the marked codecs, and a second plain mux is built after the option muxes: the plain muxes (built before and after) must answer in the built-in codecs, never carry a mark, and fall back for headers naming the extra types; (3b) the same tables on a mux with StatsOption + pass-through interceptors and on a mux whose FilesOption registry is a re-ordered second build of the descriptors while the handlers build replies on the first; (3f) request histories: on a mux with unary-only CodecOption codecs (one media type sorting before the built-in ones) the Accept-table cases are served, then server-streaming and bidi HTTP requests with various Accept headers are served by the SAME mux, then the same cases again - negotiation must be a function of the request, not of earlier requests; (3e) a concurrent lane: 8 goroutines send GETs over real loopback connections for self-describing replies of ~768 KiB, Accept alternating json / protobuf, and each must decode its own reply; (3g) a POPULATION of muxes in one process: one mux per small set of options that extend the default tables (every single extra CodecOption media type of a pool of nine sorting before / between / after the built-in types, pairs over all position pairs, triples, with none / one / two extra CompressorOption codings); each new mux is served a table built from its own registered universe (each registered type alone, preferred, and as the only type not excluded; types registered on other muxes only, alone and in front of a built-in type; Accept-Encoding naming own and foreign codings), then the tables of muxes created earlier are served again (the first default mux, the previous mux, a PRNG-chosen older one), a fresh default mux is created and served, and at the end every mux of the population is served once more; first round in canonical order, further rounds in PRNG order; a case that was answered correctly before the latest mux was created and is not afterwards is keyed mux-population:subject=<default-options|extended-options>,<created-before|created-after>-another-mux-with-extended-options (the option classes of both are in the text and in counters; a case already failing before the latest creation is counted, not reported again); (3h) the REQUEST content type as a dimension of the Accept tables: methods with a raw request body (google.api.HttpBody as the whole body, as a body-selected field, nested; POST / PUT / PATCH) or no body (GET / DELETE) and an ordinary reply (vf.Rsp, vf.Req, response_body, a well-known type), called with Content-Types no codec is registered for (other top-level types, parameters, +suffix types, a registered type with a parameter; the registered ones as controls) under a table built from the request's own type T and the registered universe (*/*, type-of-T/*, T alone, T next to / before / after a registered type at higher, equal and lower weights, T excluded, all registered excluded, two header lines) plus random headers over the same ranges, on the default and the custom-codecs mux: whenever a registered type is admitted with q>0 the reply must arrive in an admitted registered type and decode with it, whatever the header says about T (a failure that disappears when the same request is sent under a registered type is keyed request-content-type-not-a-registered-codec:accept-matches-it-via=<*/*|type/*|exact|none>); where no registered type is admitted or the header is absent / not evaluated, no claim is made and the outcome is counted; at the very end the foreign-mux lane (see C03) re-serves a set of cases after an unrelated mux was created with options for the built-in keys; (3d) a quarter of the requests carry a Twirp-Version header (a failure that disappears without it is keyed twirp-version-header), on annotated and implicit routes; (3c) replies that ARE well-known types with a JSON form of their own (Timestamp, Duration, FieldMask, the nine wrappers, Struct, Value, ListValue, Empty), default-valued and not, as the method's reply and as the response_body-selected field of vf.Req / ComplexRequest; (4a) rules with additional_bindings whose bindings differ from the primary rule in response_body and body (both the additional binding and the primary are exercised); (4) rules delivered through ServiceConfigOption (selector = method): on routes of their own and re-declaring the annotated route of the method with another body / response_body (the service configuration wins). Oracles: independent decode by the response Content-Type (protojson / proto.Unmarshal / the harness decoders of the extra codecs) and proto.Equal with the reply or its response_body field; HttpBody: body == data and Content-Type == content_type; Content-Encoding gzip must gunzip to the payload, absent / identity means the body is the payload; RFC 7231 5.3.2 evaluator (most specific range wins, q=0 excludes), applied only when the header parses under the evaluated grammar: if a registered type is admitted the response type must be admitted, if none is the response type must be the request's own (JSON when absent). distinct = (rule, response codec, request type, Accept class, admission verdict, response Content-Encoding). Stateful part: sequences of 16-40 requests on one mux against an asset-server handler that owns long-lived buffers (1 B - 40 KB) and long-lived reply messages and serves them repeatedly without copying (fresh HttpBody / vf.Rsp per call whose data / bytes field aliases the buffer; the same long-lived vf.Rsp whose response_body-selected HttpBody or vf.Req sub-message holds it), interleaved with other transcoded requests with request bodies and replies of 0 B - 60 KB in all codecs; every reply is checked against an expectation built from an independent pristine copy, after every step every handler-owned buffer must still equal its pristine copy (canary) and at the end every long-lived reply message must equal a freshly built one; distinct there = (asset shape, codec) of assets served again intact after other traffic"
 
 // RunC04 is the unary-response-fidelity check.
 func RunC04(r *mon.Run) {
 	r.Rule = ruleC04
 	r.Floor = 150
-	r.Assume("replies are far below the default send limit; request content types are the registered media types of the mux under test (three built-in ones, plus two CodecOption types on the custom-codecs mux) or absent; Accept headers outside the evaluated RFC 7231 grammar (media-type parameters, accept-ext, upper case, empty elements, quoted strings) only get the no-crash / decodable-by-own-Content-Type check; response compression itself is not required by the property, only the truthfulness of Content-Encoding")
+	r.Assume("replies are far below the default send limit; request content types are the registered media types of the mux under test (three built-in ones, plus two CodecOption types on the custom-codecs mux) or absent - in the request-content-type lane also media types without a registered codec, where the claim is made only for Accept headers that admit a registered type with q>0; Accept headers outside the evaluated RFC 7231 grammar (media-type parameters, accept-ext, upper case, empty elements, quoted strings) only get the no-crash / decodable-by-own-Content-Type check; response compression itself is not required by the property, only the truthfulness of Content-Encoding")
 	g := &gen{r: r, rng: r.Rand("c04")}
 	dyn, real := replyRules()
 	all := append(append([]RuleSpec(nil), dyn...), real...)
@@ -986,6 +986,8 @@ func RunC04(r *mon.Run) {
 		}
 		do(x, types[g.rng.Intn(len(types))], acc, acceptEncodingPool[g.rng.Intn(len(acceptEncodingPool))])
 	}
+	// the request content type as a dimension: uploads / stray types no codec is registered for
+	runUploadC04(r, g)
 	// request histories: the Accept tables after streaming requests on the same mux
 	runHistoryC04(r, g)
 	// concurrent clients over real connections with large replies
